@@ -306,6 +306,30 @@ fn main() {
         }
     }
     let io_structs: std::collections::HashSet<String> = ops.iter().flat_map(|o| [o.input.clone(), o.output.clone()]).collect();
+    // (structure, normalised member) whose target is a list carried in a WRAPPER element (no xmlFlattened trait): the one kind
+    // of list whose empty value has an encoding of its own
+    let wrapped_lists: std::collections::HashSet<(String, String)> = {
+        let v: serde_json::Value = serde_json::from_str(&std::fs::read_to_string("/repo/data/s3.json").expect("s3.json")).expect("json");
+        let shapes = v.get("shapes").and_then(|s| s.as_object()).expect("shapes");
+        let mut out = std::collections::HashSet::new();
+        for (id, sh) in shapes {
+            if sh.get("type").and_then(|t| t.as_str()) != Some("structure") {
+                continue;
+            }
+            let sname = id.rsplit('#').next().unwrap().to_owned();
+            for (m, mv) in sh.get("members").and_then(|m| m.as_object()).into_iter().flatten() {
+                let target = mv.get("target").and_then(|t| t.as_str()).unwrap_or("");
+                let is_list = shapes.get(target).and_then(|t| t.get("type")).and_then(|t| t.as_str()) == Some("list");
+                let tr = mv.get("traits").and_then(|t| t.as_object());
+                let flattened = tr.is_some_and(|t| t.contains_key("smithy.api#xmlFlattened"));
+                let bound_elsewhere = tr.is_some_and(|t| t.keys().any(|k| k.starts_with("smithy.api#http")));
+                if is_list && !flattened && !bound_elsewhere {
+                    out.insert((sname.clone(), norm(m)));
+                }
+            }
+        }
+        out
+    };
 
     let mut d = String::new();
     writeln!(d, "// generated by build.rs from dto/generated.rs and data/s3.json").unwrap();
@@ -381,6 +405,11 @@ fn main() {
                         (true, Some(p)) => format!("Pos::{p}"),
                     };
                     writeln!(d, "        for (l, m) in <{t} as Gen>::alts({pos_expr}, depth - 1) {{ v.push((format!(\".{f}{{l}}\"), Arc::new(move |s: &mut Self| m(&mut s.{f})))); }}").unwrap();
+                    if wrapped_lists.contains(&(name.clone(), norm(f))) {
+                        // the empty wrapped list (only where a check asks for it: an SDK may not put it on the wire)
+                        let empty = if t.starts_with("Option<") { "Some(Default::default())" } else { "Default::default()" };
+                        writeln!(d, "        if ALLOW_EMPTY_WRAPPED_LISTS.with(std::cell::Cell::get) {{ v.push((\".{f}=[](empty wrapped list)\".to_owned(), Arc::new(move |s: &mut Self| s.{f} = {empty}))); }}").unwrap();
+                    }
                 }
                 writeln!(d, "        v\n    }}\n}}").unwrap();
                 if is_io {
